@@ -25,7 +25,7 @@ LEAVES4 = ("2", "0.5", "mean", "std")
 META = dict(
     rule="(a) grammar: every expression tree of depth<=1 over leaves {2, 0.5, mean, min, max, std}, depth<=2 over {2, 0.5, "
          "mean, std} (thorough: depth 2 over all six leaves, depth 3 over {2, mean} with - and /), operators + - * / and "
-         "unary minus, rendered with single spaces in minimal and in fully parenthesised form, x 3 statistics tuples "
+         "unary minus, rendered with single spaces in minimal, fully parenthesised and bare-unary-minus form (\"- - min\", \"3 - - max\"), x 3 statistics tuples "
          "(negative and zero values), evaluated by the real eval_fx and compared with the tree evaluated by python "
          "operators; (b) event graph over evaluation histories on the real module-level parser stack: every history of "
          "depth<=3 (thorough 4) over 8 valid expressions + 5 failing ones (truncated, unbalanced, invalid identifier, "
@@ -61,22 +61,23 @@ def trees(depth, leaves, ops=("+", "-", "*", "/"), unary=True):
     return by_depth
 
 
-def render(t, full=False):
-    """-> (string, precedence)"""
+def render(t, full=False, bare=False):
+    """-> (string, precedence); bare=True leaves unary minus un-parenthesised where the grammar allows it
+    ("- - min", "3 - - max", "2 * - std")"""
     if t[0] == "leaf":
         return t[1], 9
     if t[0] == "neg":
-        s, p = render(t[1], full)
-        if p < 9 or full:
+        s, p = render(t[1], full, bare)
+        if (p < 9 and not (bare and p == 3)) or full:
             s = f"( {s} )"
         return f"- {s}", 3
     _, op, a, b = t
-    sa, pa = render(a, full)
-    sb, pb = render(b, full)
+    sa, pa = render(a, full, bare)
+    sb, pb = render(b, full, bare)
     p = PREC[op]
     if pa < p or full and pa < 9:
         sa = f"( {sa} )"
-    if pb <= p or full and pb < 9 or pb == 3:
+    if pb <= p or full and pb < 9 or (pb == 3 and not bare):
         sb = f"( {sb} )"
     return f"{sa} {op} {sb}", p
 
@@ -331,7 +332,7 @@ def run_task(task, acc):
             for k, t in enumerate(pool):
                 if k % nchunk != c:
                     continue
-                forms = {render(t)[0], render(t, True)[0]}
+                forms = {render(t)[0], render(t, True)[0], render(t, False, True)[0]}
                 for fx in sorted(forms):
                     for s in range(len(STATS)):
                         yield dict(kind="expr", fx=fx, tree=t, stats=s)
